@@ -173,11 +173,12 @@ class ProductState:
                 # Constructing the einsum str
                 einsum = ESC.measure_vector(remaining_states, [state])
 
-                # Project the state with einsum string
-                projected_state = jnp.einsum(einsum, ps)
+                # Marginal distribution: populations summed over the other states
+                # (summing the amplitudes themselves would let them interfere)
+                projected_state = jnp.einsum(einsum, jnp.abs(ps) ** 2)
 
                 # Outcome Probabilities
-                probabilities = jnp.abs(projected_state.flatten()) ** 2
+                probabilities = projected_state.flatten()
                 probabilities /= jnp.sum(probabilities)
 
                 # Decide on output
@@ -224,10 +225,10 @@ class ProductState:
             shape = [so.dimensions for so in self.state_objs] * 2
             ps = self.state.reshape(shape)
             for idx, state in enumerate(states):
-                # Generate einsum string
-                einsum = ESC.measure_matrix(remaining_states, [state])
+                # Generate einsum string (partial trace over the other states)
+                einsum = ESC.trace_out_matrix(remaining_states, [state])
 
-                # Project the state with einsum
+                # Reduced density matrix of the measured state
                 projected_state = jnp.einsum(einsum, ps)
 
                 # Outcome Probabilities
